@@ -275,6 +275,11 @@ func (c *channel) sendSession(ctx context.Context, ses *Session) error {
 		return fmt.Errorf("send session: cannot do in the %v state", state)
 	}
 
+	// The transports do not support concurrent calls to Send, so the session envelopes
+	// are serialized with the other envelopes that may be being sent by other goroutines.
+	c.sendMu.Lock()
+	defer c.sendMu.Unlock()
+
 	err := c.transport.Send(ctx, ses)
 	if err != nil {
 		return fmt.Errorf("send session: transport error: %w", err)
